@@ -43,7 +43,7 @@ func (*ScalarField) FromBytesBEReduce(input []byte) (*Scalar, error) {
 	var s Scalar
 	var acc uint64
 	for _, b := range input {
-		acc = (acc*256 + uint64(b)) % Q
+		acc = (mulmod(acc, 256, Q) + uint64(b)) % Q
 	}
 	s.V.v = acc
 	return &s, nil
@@ -67,7 +67,13 @@ type Scalar struct {
 }
 
 func (*Scalar) Structure() algebra.Structure[*Scalar] { return NewScalarField() }
-func (s *Scalar) Int() uint64                          { return s.V.v }
+// Int returns the value; in Big mode an interned token (equal scalars <=> equal token).
+func (s *Scalar) Int() uint64 {
+	if Big {
+		return intern(2, s.V.v)
+	}
+	return s.V.v
+}
 
 func (s *Scalar) MarshalBinary() ([]byte, error) { return s.V.Bytes(), nil }
 func (s *Scalar) UnmarshalBinary(data []byte) error {
